@@ -363,6 +363,14 @@ def run_impl(ctx, stream, ops, np=None):
         env['OMPI_MCA_rmaps_base_oversubscribe'] = '1'
         env['OMPI_MCA_mpi_yield_when_idle'] = '1'
     data = '\n'.join(ops) + '\n'
+    if getattr(stream, 'ops_file', False):
+        # additive (comm package): Open MPI 4.1.4's mpiexec stdin forwarding stalls / segfaults on large inputs
+        # under load, so such a stream hands the ops to the harness as `--ops <file>`; stdin is /dev/null
+        opath = os.path.join(ctx.build, 'ops_%s_%d.txt' % (stream.name, os.getpid()))
+        with open(opath, 'w') as f:
+            f.write(data)
+        cmd = cmd + ['--ops', opath]
+        data = ''
     try:
         p = subprocess.run(cmd, input=data, capture_output=True, text=True, timeout=stream.timeout, env=env,
                            cwd=ctx.build)
